@@ -16,6 +16,8 @@ import (
 	"context"
 	"crypto/sha256"
 	"fmt"
+	"sort"
+	"strings"
 	"time"
 
 	"github.com/cometbft/cometbft/abci/types"
@@ -160,6 +162,102 @@ func twin(h *chainsim.History, rep chainsim.Reporter, idx, ti int, signer stakin
 	return true
 }
 
+// preSweep turns the last valid transaction of a signer in the block into a series of
+// FIRST executions under rising gas limits: the victim's slot gets the transaction with gas
+// limit 0, and the following nonces carry the same body with every limit at which a charge
+// can run out (transaction size, each operation cost, and the sums that nested executions
+// such as a vault action reach, each -1/0/+1), until finally the original fee lets it
+// succeed. Every failed attempt ran against the state the transaction was generated for and
+// must leave nothing behind (AtomicityMonitor), and the last one must still succeed.
+func preSweep(h *chainsim.History, base []*chainsim.GenTx, sweeps, sweepTxs *int) []*chainsim.GenTx {
+	vi := -1
+	for pass := 0; pass < 2 && vi < 0; pass++ {
+		for i := len(base) - 1; i >= 0 && vi < 0; i-- {
+			b := base[i]
+			// first choice: a transaction that executes another one inside (vault action)
+			if pass == 0 && !strings.HasPrefix(b.Method, "vault.") {
+				continue
+			}
+			if b.Intent == "valid" && b.Tx != nil && b.Signer != nil && b.Tx.Fee != nil {
+				last := true
+				for _, o := range base[i+1:] {
+					if o.Signer == b.Signer {
+						last = false
+					}
+				}
+				if last {
+					vi = i
+				}
+			}
+		}
+	}
+	if vi < 0 {
+		return nil
+	}
+	victim := base[vi]
+	size := uint64(len(victim.Raw))
+	orig := uint64(victim.Tx.Fee.Gas)
+	origFee := victim.Tx.Fee
+	// Operation costs of the generated genesis (staking 10..16, registry/governance/roothash/
+	// key manager 1000, vault 5000/10000) and the sums a nested execution reaches (a vault
+	// action executing an inner method: 5000 + inner cost).
+	single := []uint64{10, 11, 12, 13, 14, 16, 1000, 5000, 10000}
+	ops := append([]uint64{}, single...)
+	for _, c := range single {
+		ops = append(ops, 5000+c, 1000+c)
+	}
+	set := map[uint64]bool{0: true, 1: true}
+	for _, base := range []uint64{size - 1, size, size + 1, size + 2} {
+		set[base] = true
+		for _, c := range ops {
+			for d := uint64(0); d < 5; d++ {
+				set[base+c+d-2] = true
+			}
+		}
+	}
+	var limits []uint64
+	for g := range set {
+		if g < orig {
+			limits = append(limits, g)
+		}
+	}
+	sort.Slice(limits, func(i, j int) bool { return limits[i] < limits[j] })
+	price := h.Sc.P.MinGasPrice
+	nonce := victim.Tx.Nonce
+	mk := func(gas uint64, fee *transaction.Fee, intent string) *chainsim.GenTx {
+		tx := *victim.Tx
+		tx.Nonce = nonce
+		nonce++
+		if fee == nil {
+			f := transaction.Fee{Gas: transaction.Gas(gas)}
+			_ = f.Amount.FromUint64(gas * price)
+			fee = &f
+		}
+		tx.Fee = fee
+		st, err := transaction.Sign(victim.Signer.Signer, &tx)
+		if err != nil {
+			panic(err)
+		}
+		return &chainsim.GenTx{Raw: cbor.Marshal(st), Signer: victim.Signer, Tx: &tx, Method: victim.Method, Intent: intent}
+	}
+	var out []*chainsim.GenTx
+	for i, g := range limits {
+		t := mk(g, nil, "gas-presweep")
+		if i == 0 {
+			*base[vi] = *t // the victim's own slot
+			continue
+		}
+		out = append(out, t)
+	}
+	if len(limits) == 0 {
+		return nil
+	}
+	out = append(out, mk(0, origFee, "valid-after-presweep"))
+	*sweeps++
+	*sweepTxs += len(out)
+	return out
+}
+
 func runCase(c chainsim.Case, rep chainsim.Reporter, scratch string) {
 	am := &chainsim.AtomicityMonitor{Rep: rep}
 	rec := &chainsim.Recorder{TxSubs: []chainsim.TxMonitor{am}}
@@ -173,7 +271,14 @@ func runCase(c chainsim.Case, rep chainsim.Reporter, scratch string) {
 	sweepTxs := 0
 	h.Gen.Extra = func(g *chainsim.TxGen, height int64, base []*chainsim.GenTx) []*chainsim.GenTx {
 		rng := g.Rng()
-		if height < 2 || rng.IntN(12) != 0 {
+		if height < 2 {
+			return nil
+		}
+		mode := rng.IntN(12)
+		if mode == 1 || mode == 2 {
+			return preSweep(h, base, &sweeps, &sweepTxs)
+		}
+		if mode != 0 {
 			return nil
 		}
 		// Gas sweep: the last valid transaction of a signer in this block is re-issued
